@@ -99,6 +99,9 @@ class Free(Manifold):
     def residual(self, x) -> float:
         return 0.0
 
+    def point(self, params):
+        return np.asarray(params, dtype=float)  # the parameters of a free clamp are its coordinates
+
     def closest(self, p):
         return np.asarray(p, float)
 
